@@ -7,13 +7,13 @@ CASES = [
          old="""            if (np.asarray([m % 2 for m in mode_no]) != 0).any():
                 raise ValueError("Fourier: Odd mode_no not supported.")
 """, new=""),
-    dict(name="parity-check-after", file=G, expect="R17.2",
-         old="""            if (np.asarray([m % 2 for m in mode_no]) != 0).any():
-                raise ValueError("Fourier: Odd mode_no not supported.")
-            self._set_modes(mode_no, dim)""",
-         new="""            self._set_modes(mode_no, dim)
-            if (np.asarray([m % 2 for m in mode_no]) != 0).any():
-                raise ValueError("Fourier: Odd mode_no not supported.")"""),
+    dict(name="parity-check-after", expect=["R17.2", "R17.1"], edits=[
+        dict(file=G, old='        if mode_no is not None:\n            mode_no = self._fill_to_dim(mode_no, dim)\n            if (np.asarray([m % 2 for m in mode_no]) != 0).any():\n                raise ValueError("Fourier: Odd mode_no not supported.")\n        if period is not None:', new='        if period is not None:'),
+        dict(file=G, old='        if mode_no is not None:\n            self._set_modes(mode_no, dim)\n', new='        if mode_no is not None:\n            mode_no = self._fill_to_dim(mode_no, dim)\n            self._set_modes(mode_no, dim)\n            if (np.asarray([m % 2 for m in mode_no]) != 0).any():\n                raise ValueError("Fourier: Odd mode_no not supported.")\n')]),
+    # the state before the repair 22c1aeb: period and wave number spacing are stored, then an odd mode_no is rejected
+    dict(name="validate-after-store", expect="R17.1", edits=[
+        dict(file=G, old='        if mode_no is not None:\n            mode_no = self._fill_to_dim(mode_no, dim)\n            if (np.asarray([m % 2 for m in mode_no]) != 0).any():\n                raise ValueError("Fourier: Odd mode_no not supported.")\n        if period is not None:', new='        if period is not None:'),
+        dict(file=G, old='        if mode_no is not None:\n            self._set_modes(mode_no, dim)\n', new='        if mode_no is not None:\n            mode_no = self._fill_to_dim(mode_no, dim)\n            if (np.asarray([m % 2 for m in mode_no]) != 0).any():\n                raise ValueError("Fourier: Odd mode_no not supported.")\n            self._set_modes(mode_no, dim)\n')]),
     dict(name="grid-off-by-half", file=G, expect="R17.3", old="            np.arange(-mode_no[d] / 2.0, mode_no[d] / 2.0) * self._delta_k[d]", new="            np.arange(-(mode_no[d] - 1) / 2.0, mode_no[d] / 2.0) * self._delta_k[d]"),
     dict(name="grid-wrong-step", file=G, expect="R17.3", old="            np.arange(-mode_no[d] / 2.0, mode_no[d] / 2.0) * self._delta_k[d]", new="            np.arange(-mode_no[d] / 2.0, mode_no[d] / 2.0) * self._delta_k[0]"),
     dict(name="revert-float-step-arange", file=G, expect="R17.3", old="            np.arange(-mode_no[d] / 2.0, mode_no[d] / 2.0) * self._delta_k[d]", new="            np.arange(-mode_no[d] / 2.0 * self._delta_k[d], mode_no[d] / 2.0 * self._delta_k[d], self._delta_k[d])"),
